@@ -331,3 +331,52 @@ def result_guards(fn, call_bb, call_rx, allow):
         okb = fn.switch_target(sbb, 0)
         out.append({"switch_bb": sbb, "ok": okb, "err": [s for s in fn.succ(sbb) if s != okb], "slice": sl})
     return out
+
+
+# --------------------------------------------------------------------------- the Ok side of a returned Result
+OK_PRESERVING = r"Result::<T, E>::(map_err|inspect_err|or_else)$"
+
+
+def ok_sources(fn, local=0, depth=0, _seen=None):
+    """Operands from which the *Ok payload* of the Result held in `local` (default: the return place) comes,
+    whatever the idiom: `Ok(x)` literals give x; `Err(..)` literals and `?`'s from_residual only feed the error
+    side and are skipped; map_err / inspect_err / or_else keep the Ok payload, so the receiver is followed; plain
+    moves are followed.  Any other definition is returned as it is (the whole value), so the answer
+    over-approximates: `r.map_err(|e| build(e))` and `match r { Ok(v) => Ok(v), Err(e) => Err(build(e)) }`
+    both yield just `r`'s origin."""
+    from .lib import operand_local
+    seen = _seen if _seen is not None else set()
+    if local in seen or depth > 8:
+        return []
+    seen.add(local)
+    out = []
+    reach = fn.reachable(0)
+    for bb, kind, node in fn.defs().get(local, []):
+        if bb not in reach or fn.blocks[bb]["cleanup"]:
+            continue
+        if kind == "assign":
+            if node["pl"]["p"]:
+                out.append({"k": "copy", "pl": {"l": local, "p": []}})
+                continue
+            rv = node["rv"]
+            if rv["rv"] == "agg" and rv.get("agg") == "adt" and rv.get("adt") == "std::result::Result":
+                if rv.get("variant") == "Ok":
+                    out.append(rv["ops"][0])
+                continue
+            src = operand_local(rv["op"]) if rv["rv"] == "use" else None
+            if src is not None:
+                out.extend(ok_sources(fn, src, depth + 1, seen))
+            else:
+                out.append({"k": "copy", "pl": {"l": local, "p": []}})
+        elif kind == "call":
+            c = node.get("callee") or ""
+            if c.endswith("ops::FromResidual::from_residual"):
+                continue
+            src = operand_local(node["args"][0]) if node["args"] else None
+            if re.search(OK_PRESERVING, c) and src is not None:
+                out.extend(ok_sources(fn, src, depth + 1, seen))
+            else:
+                out.append({"k": "copy", "pl": {"l": local, "p": []}})
+        else:
+            out.append({"k": "copy", "pl": {"l": local, "p": []}})
+    return out
